@@ -8,7 +8,7 @@ PROP = "C06"
 
 TORTURE = ["", " ", "plain", "quote\"s and 'apostrophes'", "back\\slash", "tab\tnewline\ncr\r", "\u0000\u001f control", "caf\u00e9", "cafe\u0301 (combining)",
            "\u212b \u2126 \u212a (compatibility)", "\u2028\u2029 separators", "\U0001F600 astral",
-           "</script> & <tags>", "{\"json\": [1, 2]}", "\ufeff bom", "\u00a0nbsp", "\uffff"]
+           "</script> & <tags>", "{\"json\": [1, 2]}", "[2019, 2020, ]", "x{1,}", ",}", ", ]", "trailing\\", "\\u0041 literal escape", "a\\\"b", "\ufeff bom", "\u00a0nbsp", "\uffff"]
 
 
 def native_json_corpus():
